@@ -474,3 +474,59 @@ func denote(w uint, lit string) *big.Int {
 	x, _ := new(big.Int).SetString(lit, 10)
 	return x
 }
+
+// TestLiteralsAreIndependent: a constant is a value of its own. Editing the big.Int of one parsed constant
+// in place (which the exported field X invites) must not change what any other constant holds, nor what
+// the same literal denotes when it is parsed again.
+func TestLiteralsAreIndependent(t *testing.T) {
+	const test = "LiteralsAreIndependent"
+	hx.Rule(test, "stateful: (width, value, notation) drawn as in RandomValues plus all single- and double-digit decimals; the literal is parsed twice (directly and inside modules), the first constant's X is edited in place, then the second constant, a third fresh parse and a module parse must still hold the original value; the shared constants True/False are exempt only when the type is the shared types.I1 (documented singletons). Non-trivial = all cases")
+	hx.Check(t, test, hx.N(400, 20000), func(rt *rapid.T) {
+		var w uint
+		var v *big.Int
+		if rapid.IntRange(0, 2).Draw(rt, "small") == 0 {
+			w = uint(rapid.SampledFrom([]int{2, 4, 8, 16, 32, 64, 128}).Draw(rt, "w"))
+			v = big.NewInt(int64(rapid.IntRange(0, 99).Draw(rt, "v")))
+			if v.BitLen() >= int(w) {
+				v = big.NewInt(1)
+			}
+		} else {
+			w, v = genWV(rt)
+			if w == 1 {
+				w = 2
+				v = big.NewInt(1)
+			}
+		}
+		sps := spellings(w, v, rapid.IntRange(0, 2).Draw(rt, "noise"))
+		sp := sps[rapid.IntRange(0, len(sps)-1).Draw(rt, "spelling")]
+		typ := types.NewInt(uint64(w))
+		c := caseStr(w, v, sp.text)
+		hx.Eval(1)
+		a, err1 := constant.NewIntFromString(typ, sp.text)
+		b, err2 := constant.NewIntFromString(typ, sp.text)
+		text := fmt.Sprintf("@a = global i%d %s\n@b = global i%d %s\n", w, sp.text, w, sp.text)
+		m, err3, p := lx.Parse(text)
+		if err1 != nil || err2 != nil || err3 != nil || p != nil {
+			hx.Discard("literal_not_accepted(judged_elsewhere)")
+			return
+		}
+		ma := m.Globals[0].Init.(*constant.Int)
+		mb := m.Globals[1].Init.(*constant.Int)
+		want := new(big.Int).Set(b.X)
+		// edit the first of each pair in place
+		a.X.Add(a.X, big.NewInt(1000003))
+		ma.X.Lsh(ma.X, 3).Add(ma.X, big.NewInt(77))
+		if b.X.Cmp(want) != 0 || mb.X.Cmp(want) != 0 {
+			hx.Fail(rt, test, "txt", c, "editing the value of one constant parsed from %q in place changed another constant parsed from the same literal: now %s and %s, want %s", sp.text, b.X, mb.X, want)
+		}
+		f, err4 := constant.NewIntFromString(typ, sp.text)
+		m2, err5, p5 := lx.Parse(text)
+		if err4 != nil || err5 != nil || p5 != nil {
+			hx.Fail(rt, test, "txt", c, "the literal %q is no longer accepted after another constant was edited: %v %v", sp.text, err4, err5)
+		}
+		if f.X.Cmp(want) != 0 || m2.Globals[0].Init.(*constant.Int).X.Cmp(want) != 0 {
+			hx.Fail(rt, test, "txt", c, "after editing a constant in place, i%d %s denotes %s (fresh constant) / %s (fresh module), it denoted %s before", w, sp.text, f.X, m2.Globals[0].Init.(*constant.Int).X, want)
+		}
+		hx.NonTrivial(c)
+	})
+}
